@@ -63,6 +63,8 @@ pub const ALPHABET: &[&str] = &[
     "[HitObjects]\r",
     "\u{3000}",
     "a\u{0085}",
+    "Creator:\u{040a}",
+    "Source: \u{0a05}x\u{4e0a}",
 ];
 
 fn build(seq: &[usize], eol: &str, final_eol: bool) -> String {
@@ -113,7 +115,8 @@ pub fn run(ctx: &mut Ctx) {
             }
             // other encodings: a 1/16 sample of the enumeration
             if idx % 16 == 5 {
-                let text = build(&seq, "\n", true);
+                // with and without a final line feed, alternating
+                let text = build(&seq, "\n", idx % 32 == 5);
                 for enc in [Enc::Utf8Bom, Enc::Utf16Le, Enc::Utf16Be] {
                     let bytes = gen::transcode(&text, enc);
                     check_bytes(ctx, idx, &bytes, "enumerated-transcoded");
